@@ -4,7 +4,8 @@ set -e
 cd "$(dirname "$0")"
 export CARGO_NET_OFFLINE=true
 sh coq/mkproject.sh
-( cd coq && timeout 7200 make -j16 >/dev/null )
+# -k: one file that does not compile must not block the others (each check builds its own target)
+( cd coq && timeout 7200 make -j16 -k >/dev/null 2>&1 || echo "setup: some Coq files did not compile (the checks that need them will say so)" )
 mkdir -p _build
 [ -f harness/Cargo.lock ] || cp /repo/Cargo.lock harness/Cargo.lock
 ( cd harness && CARGO_TARGET_DIR=/verif/_build/target RUSTFLAGS="--cfg recmo_uint_verif -Awarnings" cargo build --offline --bins >/dev/null 2>&1 || true )
